@@ -24,3 +24,21 @@ package icmp
 //@ func (*ScanResult).ID
 //@   props C14
 //@   ensures ret == r.IP
+
+// ---------------------------------------------------------------------------------------------
+// C06 / C03: receive path (see pkg/scan/tcp): exact chain Ethernet?/IPv4/ICMPv4 decoded from this frame; record
+// fields read from those structs; the icmp part of every record is its own object.
+//@ pred icmpchain(d []gopacket.LayerType) = (len(d) == 3 && d[0] == layers.LayerTypeEthernet && d[1] == layers.LayerTypeIPv4 && d[2] == layers.LayerTypeICMPv4)
+//@        || (len(d) == 2 && d[0] == layers.LayerTypeIPv4 && d[1] == layers.LayerTypeICMPv4)
+//@ func validPacket
+//@   props C06 C03
+//@   ensures ret <==> icmpchain(decoded)
+//@ func (*PacketProcessor).ProcessPacketData
+//@   props C06 C03
+//@   observe DecodeLayers, String, Type, Code, Put
+//@   entry row undecodable: [call DecodeLayers(p.parser, data, _) as (e)] when e != nil && ret == e -> exit
+//@   entry row otherframe:  [call DecodeLayers(p.parser, data, _) as (e)] when e == nil && !icmpchain(p.rcvDecoded) && ret == nil -> exit
+//@   entry row record:      [call DecodeLayers(p.parser, data, _) as (e) ; call String(p.rcvIP.SrcIP) as (ips) ; call Type(p.rcvICMP.TypeCode) as (ty) ; call Code(p.rcvICMP.TypeCode) as (cd) ; call Put(p.results, bind_x)]
+//@                             when e == nil && icmpchain(p.rcvDecoded) && ret == nil && isptr(x, ScanResult) && fresh(asptr(x, ScanResult)) && fresh(asptr(x, ScanResult).ICMP)
+//@                               && asptr(x, ScanResult).IP == ips && asptr(x, ScanResult).TTL == p.rcvIP.TTL && asptr(x, ScanResult).ICMP.Type == ty && asptr(x, ScanResult).ICMP.Code == cd
+//@                               && asptr(x, ScanResult).ScanType == p.scanType -> exit
